@@ -20,7 +20,7 @@ def pred_no_field_stmt(case):
 # ------------------------------------------------------------------------------------------------
 # generation
 @hyp.composite
-def enum_cases(d, max_bits=10, nfields=4, nblocks=2):
+def enum_cases(d, max_bits=10, nfields=4, nblocks=2, p_list=30):
     """small-domain programs: total random bits <= max_bits so the solution set is enumerated"""
     fs, en = gen.gen_fields(d, nmax=nfields, widths=gen.TINY_W)
     # keep the random space enumerable
@@ -33,6 +33,10 @@ def enum_cases(d, max_bits=10, nfields=4, nblocks=2):
         else:
             big["w"] -= 1
             big["init"] = sem.wrap(big["init"], big["w"], big["signed"])
+    cls = {"name": "T", "fields": fs}
+    if d.chance(p_list):
+        # a fixed-size list whose elements the statements name by constant subscripts (self.l[0]) like any other field
+        gen.add_list(d, fs, cls, max_bits)
     g = gen.G(d, fs, en)
     blocks = []
     for b in range(d.randint(1, nblocks)):
@@ -42,7 +46,8 @@ def enum_cases(d, max_bits=10, nfields=4, nblocks=2):
     for _ in range(d.randint(1, 3)):
         k = d.choice(KINDS)
         calls.append({"kind": k, "seed": d.seed()})
-    prog = {"enums": en, "classes": [{"name": "T", "fields": fs, "blocks": blocks}]}
+    cls["blocks"] = blocks
+    prog = {"enums": en, "classes": [cls]}
     return {"mode": "enum", "prog": prog, "inline": inline, "calls": calls,
             "sel": [d.randint(0, 1 << 16) for _ in range(8)], "pseed": d.seed()}
 
@@ -160,6 +165,8 @@ def run_case(case, acc=None, want=("C01", "C02")):
     env0 = {f["name"]: f["init"] for f in fields}
     class_stmts = [s for b in cls["blocks"] for s in b["stmts"]]
     inline = case.get("inline") or []
+    if not all(sem.well_formed(s) for s in class_stmts + inline):
+        return vios, {}          # not a generated shape (left behind by structural reduction)
     reset_library()
     try:
         ns = flat.build(prog)
